@@ -25,20 +25,8 @@ def rules(fx, rep):
             rep.fail('BYTES', 'evaluator-scratch', 'evaluator body not found')
             return
         rep.fn(ev)
-        # fixed scratch arrays of the coordinate type
-        sizes = []
-        for l in b.locals:
-            m = re.match(r'^\[<PtT as CurveProjective>::Base; (\d+)\]$', l['ty'])
-            if m:
-                sizes.append(int(m.group(1)))
-        maxlen = max(max(d['lens']) for d in iso.values()) if iso else 0
-        big = sorted(set(s for s in sizes if s > 4))
-        rep.check(len(big) >= 2 and big[-1] >= maxlen and big[0] >= maxlen - 1, 'BYTES', 'evaluator-scratch',
-                  'scratch arrays %s cover the longest table (%d coefficients) and its %d powers of Z^2' % (big, maxlen, maxlen - 1),
-                  'scratch arrays %s are too small for tables of %d coefficients' % (big, maxlen), fx.fn(ev)['span'])
-        for g, d in iso.items():
-            rep.check(d['lens'][2] == max(d['lens']), 'BYTES', '%s:ynum-longest' % g, 'YNUM is the longest table (the Z-power fill loop is sized from it)',
-                      'YNUM (%d) is not the longest table %s: powers of Z used by a longer table are left zero' % (d['lens'][2], d['lens']))
+        # (scratch sizes / fill-loop bounds are decided by the evaluator rule below: an index out of range is a panicking path,
+        #  a missing power of Z a wrong polynomial)
         # single unsafe block: as_tuple_mut on the function's own &mut argument
         ub = [u for u in fx.unsafe_blocks if u['owner'] == ev and u['source'] == 'UserProvided']
         rep.check(len(ub) == 1, 'WIRE', 'evaluator-unsafe', 'one unsafe block (coordinate write-back through as_tuple_mut)', '%d unsafe blocks in the evaluator' % len(ub))
@@ -97,9 +85,12 @@ def rule_evaluator(fx, rep, iso):
                     fr.storev(t['dest'], Agg([Ref(v.root, list(v.proj)), Ref(v.root, list(v.proj) + [['off', k.v]])]))
                     return True
                 return False
-            return False
-        I = exp.Interp(fx, 'mul', extra_transfer=tr, max_paths=16, max_steps=200000)
+            import stdmodel
+            return stdmodel.result_transfer(I, fr, t, c, pth)
+        import inline as INL
+        I = exp.Interp(fx, 'mul', extra_transfer=tr, max_paths=16, max_steps=200000, inline=lambda q: INL.is_private_helper(fx, q) and q != ev)
         I.sums = True
+        I.fork_inlined = True
         tables = Agg([Agg([Lin.atom('t%d_%d' % (i, k)) for k in range(lens[i])]) for i in range(4)])
         pt = Agg([Lin.atom('x'), Lin.atom('y'), Lin.atom('z')])
         try:
